@@ -1,5 +1,4 @@
-/- Resumption of a suspended pipeline and the client-level invariant: after every list of client events the state of
-   `mech` denotes `spec` of the program the client has written so far. -/
+/- Resumption of a suspended pipeline denotes what the suspended thread denoted. -/
 import YaclibModel.Proofs.PipelineMaster
 
 namespace Yaclib.Pipeline
@@ -9,88 +8,53 @@ theorem specSteps_nil (cfg : Cfg) (hd : Bool) (r : R) (inh : Exec) (subs inv : L
     specSteps cfg [] hd r inh subs inv = ⟨r, inh, subs, inv⟩ := by
   rw [specSteps.eq_def]
 
-theorem unwind_den (cfg : Cfg) : ∀ (fs : List Frame) (o : Out), d10FreeFrames fs = true → okOut o = true →
-    denK cfg [] (unwind cfg fs o) = (denK cfg [] o).map (specFrames cfg fs) ∧ okOut (unwind cfg fs o) = true
-  | [], o, _, ho => by
-    cases o <;> simp [unwind, specFrames, denK] <;> exact ho
-  | f :: fs, .done r inh c g, hfs, _ => by
-    simp only [d10FreeFrames, Bool.and_eq_true] at hfs
-    have h1 := runSteps_den cfg f.rest false true c r f.own (asyncDoneAcct f.ty g) hfs.1
-    have ih := unwind_den cfg fs _ hfs.2 h1.2
+theorem unwind_den (cfg : Cfg) : ∀ (fs : List Frame) (o : Out),
+    denK cfg [] (unwind cfg fs o) = (denK cfg [] o).map (specFrames cfg fs)
+  | [], o => by cases o <;> simp [unwind, specFrames, denK]
+  | f :: fs, .done r inh c g => by
     simp only [unwind]
-    refine ⟨?_, ih.2⟩
-    rw [ih.1, h1.1]
+    rw [unwind_den cfg fs, runSteps_den]
     simp [denK, specSteps_nil, specFrames]
-  | f :: fs, .parked t g, hfs, ho => by
-    simp only [okOut, d10FreeThread, Bool.and_eq_true] at ho
-    constructor
-    · simp [unwind, denK, specThread, specFrames_append]
-    · simp [unwind, okOut, d10FreeThread, d10FreeFrames_append, ho.1.1, ho.1.2, ho.2, hfs]
-  | f :: fs, .crash g, _, _ => by simp [unwind, denK, okOut]
+  | f :: fs, .parked t g => by simp [unwind, denK, specThread, specFrames_append]
+  | f :: fs, .crash g => by simp [unwind, denK]
 
-theorem fire_den (cfg : Cfg) (t : Thread) (ctx : Option Nat) (g : G) (ht : d10FreeThread t = true) :
+theorem fire_den (cfg : Cfg) (t : Thread) (ctx : Option Nat) (g : G) :
     denK cfg t.rest (fire cfg t ctx g) =
       some (specSteps cfg t.rest false (specFire cfg t.wait t.inh g.subs g.invoked).r
         (specFire cfg t.wait t.inh g.subs g.invoked).inh (specFire cfg t.wait t.inh g.subs g.invoked).subs
-        (specFire cfg t.wait t.inh g.subs g.invoked).invoked)
-    ∧ okOut (fire cfg t ctx g) = true := by
-  simp only [d10FreeThread, Bool.and_eq_true] at ht
-  obtain ⟨⟨hw, hrest⟩, _⟩ := ht
+        (specFire cfg t.wait t.inh g.subs g.invoked).invoked) := by
   unfold fire
   cases hwt : t.wait with
-  | promise p f => simp [denK, specFire, okOut]
+  | promise p f => simp [denK, specFire]
   | job jid k jk =>
     cases jk with
     | step s input hd =>
-      rw [hwt] at hw
-      simp only [d10FreeWait] at hw
-      have h1 := callStep_den cfg s t.rest hd false (some k) (some t.inh) input t.inh (g.finishJob jid true) hw hrest
       simp only []
-      refine ⟨?_, h1.2⟩
-      rw [h1.1]
+      rw [callStep_den cfg s t.rest hd false (some k) (some t.inh) input t.inh (g.finishJob jid true)]
       simp [specCallK, specFire, seenInput, isRun_stepType]
-    | readyHead r => simp [denK, specFire, okOut]
-    | promiseHead p f =>
-      simp [denK, specFire, okOut, specThread, specFrames, d10FreeThread, d10FreeWait, d10FreeFrames, hrest]
+    | readyHead r => simp [denK, specFire]
+    | promiseHead p f => simp [denK, specFire, specThread, specFrames]
 
-theorem resume_den (cfg : Cfg) (t : Thread) (ctx : Option Nat) (g : G) (ht : d10FreeThread t = true) :
-    denK cfg [] (resume cfg t ctx g) = some (specThread cfg t g.subs g.invoked)
-    ∧ okOut (resume cfg t ctx g) = true := by
-  have hf := fire_den cfg t ctx g ht
-  simp only [d10FreeThread, Bool.and_eq_true] at ht
-  obtain ⟨⟨_, hrest⟩, houter⟩ := ht
+theorem resume_den (cfg : Cfg) (t : Thread) (ctx : Option Nat) (g : G) :
+    denK cfg [] (resume cfg t ctx g) = some (specThread cfg t g.subs g.invoked) := by
+  have hf := fire_den cfg t ctx g
   unfold resume
-  have key : ∀ o : Out, denK cfg t.rest o = some (specSteps cfg t.rest false (specFire cfg t.wait t.inh g.subs g.invoked).r
-        (specFire cfg t.wait t.inh g.subs g.invoked).inh (specFire cfg t.wait t.inh g.subs g.invoked).subs
-        (specFire cfg t.wait t.inh g.subs g.invoked).invoked) → okOut o = true →
-      denK cfg [] (unwind cfg t.outer (match o with
-        | .done r inh c g' => runSteps cfg t.rest false true c r inh g'
-        | o => o)) = some (specThread cfg t g.subs g.invoked) ∧
-      okOut (unwind cfg t.outer (match o with
-        | .done r inh c g' => runSteps cfg t.rest false true c r inh g'
-        | o => o)) = true := by
-    intro o h1 h2
-    cases o with
-    | done r inh c g' =>
-      have h3 := runSteps_den cfg t.rest false true c r inh g' hrest
-      have h4 := unwind_den cfg t.outer _ houter h3.2
-      simp only []
-      refine ⟨?_, h4.2⟩
-      rw [h4.1, h3.1]
-      simp only [denK] at h1
-      simp only [Option.map_some, specThread]
-      rw [Option.some.inj h1]
-    | parked t' g' =>
-      have h4 := unwind_den cfg t.outer (.parked t' g') houter h2
-      simp only []
-      refine ⟨?_, h4.2⟩
-      rw [h4.1]
-      simp only [denK] at h1
-      have h5 := Option.some.inj h1
-      show Option.map (specFrames cfg t.outer) (some (specThread cfg t' g'.subs g'.invoked)) = _
-      rw [h5]
-      rfl
-    | crash g' => simp [denK] at h1
-  exact key _ hf.1 hf.2
+  rw [unwind_den]
+  cases ho : fire cfg t ctx g with
+  | done r inh c g' =>
+    rw [ho] at hf
+    simp only [denK] at hf
+    simp only []
+    rw [runSteps_den]
+    simp only [Option.map_some, specThread]
+    rw [Option.some.inj hf]
+  | parked t' g' =>
+    rw [ho] at hf
+    simp only [denK] at hf
+    have h5 := Option.some.inj hf
+    show Option.map (specFrames cfg t.outer) (some (specThread cfg t' g'.subs g'.invoked)) = _
+    rw [h5]
+    rfl
+  | crash g' => rw [ho] at hf; simp [denK] at hf
 
 end Yaclib.Pipeline
